@@ -230,6 +230,7 @@ void XmppSocket::connectToHost(const ServerAddress &address)
 
 void XmppSocket::disconnectFromHost()
 {
+    m_disconnectCount++;
     if (m_socket) {
         if (m_socket->state() == QAbstractSocket::ConnectedState) {
             sendData(QByteArrayLiteral("</stream:stream>"));
@@ -343,9 +344,15 @@ void XmppSocket::processData(const QString &data)
     }
 
     // process stanzas
+    const auto disconnectCount = m_disconnectCount;
     auto stanza = doc.documentElement().firstChildElement();
     for (; !stanza.isNull(); stanza = stanza.nextSiblingElement()) {
         Q_EMIT stanzaReceived(stanza);
+        // A handler has closed the stream (e.g. authentication failed): whatever else arrived in
+        // the same read must not be acted upon as if the stream were still alive.
+        if (disconnectCount != m_disconnectCount) {
+            return;
+        }
     }
 
     // process stream end
